@@ -561,7 +561,10 @@ class Mineral:
                 + f"- {len(self.fractions)} grain size results, and\n"
                 + f"- {len(self.orientations)} orientation results."
             )
-        if self.fractions[0].shape[0] == self.orientations[0].shape[0] == self.n_grains:
+        if all(
+            np.shape(f) == (self.n_grains,) and np.shape(o) == (self.n_grains, 3, 3)
+            for f, o in zip(self.fractions, self.orientations)
+        ):
             data = {
                 "meta": np.array(
                     [self.phase, self.fabric, self.regime], dtype=np.uint8
